@@ -165,6 +165,30 @@ def c19_carry_on(ftype, pos, value):
     return {"violates": not ok, "detail": None if ok else f"refused record between two accepted ones: {outcome}, read back {back}"}
 
 
+def c19_ts_unrepresentable(iso):
+    import datetime
+
+    from flow.record import RecordDescriptor, RecordReader, RecordWriter
+
+    D = RecordDescriptor("c19/t", [("string", "s"), ("datetime", "ts")])
+    with tempfile.TemporaryDirectory() as td:
+        p = os.path.join(td, "a.avro")
+        w = RecordWriter("avro://" + p)
+        w.write(D(s="first", ts=datetime.datetime(2020, 1, 2, tzinfo=datetime.timezone.utc)))
+        try:
+            w.write(D(s="refused", ts=datetime.datetime.fromisoformat(iso)))
+            outcome = "written"
+        except Exception:
+            outcome = "raised"
+        w.close()
+        try:
+            back = [r.s for r in RecordReader("avro://" + p)]
+        except Exception as e:
+            back = f"reading raised {type(e).__name__}: {e}"
+    ok = outcome == "raised" and back == ["first"]
+    return {"violates": not ok, "detail": None if ok else f"timestamp {iso} (no UTC form within years 1..9999): {outcome}, read back {back}"}
+
+
 def c19_mixed(same_name=False):
     from flow.record import RecordDescriptor
 
@@ -225,4 +249,4 @@ def c19_sweep(seed=0, n=80):
     return {"violates": False, "cases": cases}
 
 
-CALLS = {"c19_value": c19_value, "c19_schema": c19_schema, "c19_refuse": c19_refuse, "c19_mixed": c19_mixed, "c19_carry_on": c19_carry_on, "c19_sweep": c19_sweep}
+CALLS = {"c19_value": c19_value, "c19_schema": c19_schema, "c19_refuse": c19_refuse, "c19_mixed": c19_mixed, "c19_carry_on": c19_carry_on, "c19_ts_unrepresentable": c19_ts_unrepresentable, "c19_sweep": c19_sweep}
